@@ -12,6 +12,36 @@ NOTES = ("All checks: bin/check <ID> --tier quick|thorough; VERIF_SEED seeds con
 _TLC = "explicit TLA+ spec + TLC: exhaustive design check, TLC-generated cases replayed into the Go code, recorded traces judged by a TLC trace module"
 
 CHECKS = {
+    "C02": {
+        "level": "fault_enumeration",
+        "text": "Pipeline.tla models Execute/pkgExecute with one action per critical section and a fault (generator error, unparseable rendering, process death) chosen lazily at every callback; TLC checks for all behaviours in bound that failure or death leaves gengo.sum and the culprit's previous file untouched (C02_* invariants, FineRefinesMacro). PipelineHist.tla then enumerates every single fault position x package x generator x run shape x pre-state x layout; each history runs on a real module (death = os.Exit inside the callback, fresh process per run) and PipelineTrace.tla judges outcome, error text, gengo.sum bytes, culprit file, sibling effects and the follow-up run.",
+        "note": 'Fixture module with three packages in three layouts; bounds of Loop A per cfg (2-3 packages, 2 generators, 3-5 runs, 1-2 environment actions). Real map/sync.Map orders are sampled (fresh process per run), all orders only in the model. Crash points inside WriteToFile/Save not enumerated.',
+        "technique": _TLC,
+    },
+    "C04": {
+        "level": "model_checking",
+        "text": "Pipeline.tla models every order nondeterminism (write order of kept genfiles, stale-file removal order) and TLC checks C04_OutputIsFunctionOfInput for all of them; PipelineHist.tla enumerates repeated runs in fresh processes, all entrypoint permutations with/without All, on a plain fixture and one with shadowing local types / type parameters; PipelineTrace.tla's memo requires byte-identical outputs and the specified call order for identical package inputs and that a re-run changes nothing.",
+        "note": 'Fixture module with three packages in three layouts; bounds of Loop A per cfg (2-3 packages, 2 generators, 3-5 runs, 1-2 environment actions). Real map/sync.Map orders are sampled (fresh process per run), all orders only in the model. Crash points inside WriteToFile/Save not enumerated.',
+        "technique": _TLC,
+    },
+    "C05": {
+        "level": "model_checking",
+        "text": "ExpectedOut in Pipeline.tla mentions only the package's own behaviour and previous outputs (checked by TLC for every interleaving with other packages); PipelineHist.tla enumerates all pairs of runs over every ordered non-empty selection of packages x {All, non-All} with stateful recording generators (with and without New); PipelineTrace.tla requires each package's files to be identical in every run that regenerates it.",
+        "note": 'Fixture module with three packages in three layouts; bounds of Loop A per cfg (2-3 packages, 2 generators, 3-5 runs, 1-2 environment actions). Real map/sync.Map orders are sampled (fresh process per run), all orders only in the model. Crash points inside WriteToFile/Save not enumerated.',
+        "technique": _TLC,
+    },
+    "C07": {
+        "level": "model_checking",
+        "text": "Action properties of Pipeline.tla (inputs never change, only the current package's outputs change, gengo.sum only at the save step of an All run, non-selected packages untouched, file exists iff rendered / ErrIgnore keeps) checked by TLC; PipelineHist.tla enumerates planted file sets x behaviour configurations x run shapes x layouts; every file under the module root is digested before/after each run and PipelineTrace.tla checks the changed set and the existence predicate.",
+        "note": 'Fixture module with three packages in three layouts; bounds of Loop A per cfg (2-3 packages, 2 generators, 3-5 runs, 1-2 environment actions). Real map/sync.Map orders are sampled (fresh process per run), all orders only in the model. Crash points inside WriteToFile/Save not enumerated.',
+        "technique": _TLC,
+    },
+    "C08": {
+        "level": "model_checking",
+        "text": 'Pipeline.tla gives directories structural hashes (covering nested package directories) and models load-time hashing, the cached-skip guard, save after success and environment edits; TLC checks skip-only-if-unchanged, sum-after-success and bounded convergence (2 + nesting depth quiet runs, then nothing happens) and reproduces non-convergence when the root hash covers gengo.sum. PipelineHist.tla enumerates histories over 17 steps (edits, user files, deleted outputs, deleted/corrupted gengo.sum, Force, failing and subset runs) from fresh and converged pre-states in three layouts; PipelineTrace.tla binds the logged dirhash values and judges every run.',
+        "note": 'Fixture module with three packages in three layouts; bounds of Loop A per cfg (2-3 packages, 2 generators, 3-5 runs, 1-2 environment actions). Real map/sync.Map orders are sampled (fresh process per run), all orders only in the model. Crash points inside WriteToFile/Save not enumerated.',
+        "technique": _TLC,
+    },
     "C03": {
         "level": "model_checking",
         "text": "ImportTracker.tla states the permissive contract of the import table (exactly the referenced foreign packages; valid non-keyword identifiers; injective; "
